@@ -448,6 +448,58 @@ def _tb(x):
     return x != 0
 
 
+@model('scipy.special.expn')
+def _expn(ex, st, args, kwargs, node):
+    n, x = args
+    return ex.map1(lambda t: ex.c.expn(n, t), x, st, kind='real')
+
+
+@model('numpy.cumsum', '.cumsum')
+def _cumsum(ex, st, args, kwargs, node):
+    """assumed: cumsum(a)[i] = sum_{j<=i} a[j] (1-D)"""
+    a = arr(ex, st, args[0])
+    if a is None or a.ndim != 1:
+        raise Unsupported('cumsum of non 1-D')
+    return st.alloc(ex.c, Arr(a.shape, lambda ix: ex.c.Sum(0, _plus1(ix[0]), lambda j: a.elem((j,))), 'real'))
+
+
+def _plus1(i):
+    return i + 1 if not is_sym(i) else to_int(i) + 1
+
+
+@model('.dot', 'numpy.dot')
+def _dot(ex, st, args, kwargs, node):
+    """assumed: (M . v)[i] = sum_j M[i,j]*v[j] for 2-D . 1-D; sum_j a[j]*b[j] for 1-D . 1-D"""
+    A, B = arr(ex, st, args[0]), arr(ex, st, args[1])
+    if A is None or B is None:
+        raise Unsupported('dot of scalars')
+    from .engine import _same
+    if A.ndim == 2 and B.ndim == 1:
+        if not _same(A.shape[1], B.shape[0]):
+            ex.oblige('safe.shape', st, as_term(A.shape[1]) == as_term(B.shape[0]), node)
+        return st.alloc(ex.c, Arr((A.shape[0],), lambda ix: ex.c.Sum(0, A.shape[1], lambda j: A.elem((ix[0], j)) * B.elem((j,))),
+                                  'real'))
+    if A.ndim == 1 and B.ndim == 1:
+        return ex.c.Sum(0, A.shape[0], lambda j: A.elem((j,)) * B.elem((j,)))
+    raise Unsupported('dot of %d-d . %d-d' % (A.ndim, B.ndim))
+
+
+@model('builtins.any')
+def _bany(ex, st, args, kwargs, node):
+    v = args[0]
+    if isinstance(v, Ref) and isinstance(st.get(v), PyList):
+        return ex.c.Or(*[ex.truth(x, st) for x in st.get(v).items])
+    return _any(ex, st, args, kwargs, node)
+
+
+@model('builtins.all')
+def _ball(ex, st, args, kwargs, node):
+    v = args[0]
+    if isinstance(v, Ref) and isinstance(st.get(v), PyList):
+        return ex.c.And(*[ex.truth(x, st) for x in st.get(v).items])
+    return _all(ex, st, args, kwargs, node)
+
+
 # ----------------------------------------------------------------------------- scipy.stats
 @model('scipy.stats.uniform.ppf')
 def _uniform_ppf(ex, st, args, kwargs, node):
